@@ -203,6 +203,73 @@ pub fn run(tier: &str, seed: u64, out: &mut Out) {
     for _ in 0..n {
         texts.push(gen_value_text(&mut rng));
     }
+    // object-inner texts for the template-data context
+    const DATA_SNIPPETS: [&str; 26] = [
+        "a", "a,b", "a:1", "a:1,b", "a,", "...o", "...o,a", "a:b?c:d", "a:{b:1}", "a:[1,2]", "a}}", "a b", "a:", ":1", "a,,b", "{a:1}", "{a}", "a.b", "a+b",
+        "a ? b : c", "a:1}", "typeof a", "a /* c */ : 1", "a:'}}'", "", " ",
+    ];
+    let nd = if tier == "thorough" { 30_000 } else { 3_000 };
+    let mut data_texts: Vec<String> = DATA_SNIPPETS.iter().map(|s| format!("{{{{{}}}}}", s)).collect();
+    for i in 0..nd {
+        let mut inner = match rng.below(4) {
+            0 => rng.pick(&DATA_SNIPPETS).to_string(),
+            1 => {
+                let k = 1 + rng.below(3);
+                let mut parts = vec![];
+                for _ in 0..k {
+                    let name = *rng.pick(&["a", "b", "o", "k1", "$x"]);
+                    parts.push(match rng.below(4) {
+                        0 => name.to_string(),
+                        1 => format!("...{}", expr_text(&mut rng)),
+                        _ => format!("{}:{}", name, expr_text(&mut rng)),
+                    });
+                }
+                parts.join(*rng.pick(&[",", ", ", " ,"]))
+            }
+            _ => expr_text(&mut rng),
+        };
+        if rng.chance(1, 4) {
+            inner = mutate_chars(&mut rng, &inner);
+        }
+        let l = *rng.pick(&["", " ", "\n", "/* */"]);
+        let r = *rng.pick(&["", " ", " /* x */ "]);
+        let tail = if i % 7 == 0 { *rng.pick(&["x", " ", "{{b}}"]) } else { "" };
+        data_texts.push(format!("{{{{{}{}{}}}}}{}", l, inner, r, tail));
+    }
+    for x in &data_texts {
+        if x.contains('"') {
+            continue;
+        }
+        use glass_easel_template_compiler::parse::tag::Value;
+        let src = format!("<template is=\"t\" data=\"{}\"/>", x);
+        let (tree, _) = glass_easel_template_compiler::parse::parse("p", &src);
+        let got = match tree.content.get(0) {
+            Some(Node::Element(el)) => match &el.kind {
+                ElementKind::TemplateRef { data, .. } => ast::value(&data.1),
+                _ => "?".to_string(),
+            },
+            _ => "?".to_string(),
+        };
+        let _: Option<Value> = None;
+        out.case(&["valparse", "tdata", "", &enc(&format!("{}\"/>", x))], &got);
+        // the same text as an unquoted attribute value (only when it cannot end the tag early in a different way)
+        let src = format!("<v a={} />", x);
+        let (tree, _) = glass_easel_template_compiler::parse::parse("p", &src);
+        let got = match tree.content.get(0) {
+            Some(Node::Element(el)) => match &el.kind {
+                ElementKind::Normal { attributes, .. } => match attributes.get(0) {
+                    Some(a) if a.name.name == "a" => match a.value.as_ref() {
+                        Some(v) => ast::value(v),
+                        None => "NOVALUE".to_string(),
+                    },
+                    _ => "NOATTR".to_string(),
+                },
+                _ => "?".to_string(),
+            },
+            _ => "?".to_string(),
+        };
+        out.case(&["valparse", "unq", "", &enc(&format!("{} />", x))], &got);
+    }
     for x in texts {
         // text node
         if !x.contains("</") {
